@@ -108,6 +108,10 @@ func (g *gen) randTarget() Path {
 }
 
 func (g *gen) randData() []int {
+	if g.r.Intn(8) == 0 {
+		return []int{} // an empty buffer / string still meets the handle's state and access mode
+	}
+
 	n := 1 + g.r.Intn(4)
 	d := make([]int, n)
 	v := 1 + g.r.Intn(3)
